@@ -236,6 +236,23 @@ def kahan_bound(fmt, n):
 
 def oracle_C14(results, metas, st):
     out = []
+    for r, m in zip(results, metas):
+        kh = m.get('kahan')
+        if not kh or not isinstance(r['cxx'], list): continue
+        fmt = FMTS[r['case'][1]]
+        ds = dumps_of(r['cxx'])
+        if not ds: continue
+        res = chk_results(ds[-1])[0]
+        vs = kh['values']; exact = sum(vs); mag = sum(abs(v) for v in vs); n = len(vs)
+        s = parse_tok(res['main'][3])
+        tol = lambda k: kahan_bound(fmt, k) * mag * (2 if kh['twice'] else 1) + Fraction(2) ** (fmt.emin + 4) * k
+        if isnum(s) and abs(s - exact) > tol(n):
+            out.append(viol('the integral of %d values (integrand with a distribution) is off by %.3g units of u*sum|x|' % (n, float(abs(s - exact) / (fmt.u * mag)) if mag else 0.0), [r['case']]))
+        if res['dists']:
+            b = res['dists'][0][1][0]
+            bs = parse_tok(b[3]); mult = 2 if kh['twice'] else 1
+            if isnum(bs) and abs(bs - mult * exact) > tol(mult * n):
+                out.append(viol('the bin filled %s per call with %d values is off by %.3g units of u*sum|x|' % ('twice' if kh['twice'] else 'once', n, float(abs(bs - mult * exact) / (fmt.u * mag * mult)) if mag else 0.0), [r['case']]))
     for r in results:
         c = r['case']; cx = r['cxx']
         if c[2] != 'kahan' or not isinstance(cx, list) or len(cx) != 3:
